@@ -542,6 +542,67 @@ def r13_canonical_forms_compared_whole(ctx):
     ctx.floor('C01.R13', 'positive control: key sinks reached by a whole opened value (verify_singleton_ambiguity)', n_whole, 1)
 
 
+def r14_alias_never_replaces_a_real_binding(ctx):
+    ctx.rule('C01.R14', 'P7/P3 write discipline of a map with two kinds of entry: `codegen_call_block` binds every input type of the call to the variable '
+             'that holds it, keyed by canonical type, and for a `&mut T` dependency ALSO files the variable under `&T` (deref coercion). The exact '
+             'entries are authoritative, the alias is a fallback: the write whose key is rebuilt as a shared `TypeReference { is_mutable: false, .. }` '
+             'never replaces an entry (`entry(..).or_insert*`), and the write keyed by the dependency\'s own type always does (`insert`). With both '
+             '`insert`, a component that takes `&mut T` and a `&T` provided by another constructor is called as `handler(&mut v1, &mut v1)` '
+             'whenever the `T` node is ordered after the `&T` node (E0499 in the SDK); with both `or_insert`, whenever it is ordered before.')
+    b = ctx.fb.body('pavexc', PX + 'codegen_utils::codegen_call_block')
+    if not ctx.need('C01.R14', 'pavexc::compiler::codegen_utils::codegen_call_block', b):
+        return
+    defs = Defs(b)
+    writes = []   # (bb, term, kind in insert/entry, alias?)
+    for bb, t in b.calls():
+        c = callee(t) or ''
+        m = c.split('::')[-1]
+        if m not in ('insert', 'entry') or not t.get('aty') or 'HashMap<rustdoc_ir::type_::CanonicalType' not in t['aty'][0]:
+            continue
+        # the key is `<a type>.canonicalize()`: it is the alias iff that type is built right there as `Type::Reference(TypeReference { is_mutable: false, .. })`
+        # (followed through single definitions only: the dependency's own type is a variable with several)
+        alias = False
+        cur = op_place(t['args'][1])
+        for _ in range(12):
+            if cur is None:
+                break
+            ds = defs.full.get(cur['l'], [])
+            if len(ds) != 1:
+                break
+            nd = ds[0][2]
+            if nd.get('k') == 'call':
+                cur = op_place(nd['args'][0]) if nd['args'] else None
+                continue
+            rv = nd.get('rv')
+            if not rv:
+                break
+            if rv['k'] == 'agg' and rv.get('ak') == 'adt':
+                if strip_generics(rv['adt']).endswith('type_reference::TypeReference') and 'is_mutable' in rv.get('fields', []):
+                    alias = rv['ops'][rv['fields'].index('is_mutable')].get('int') == '0'
+                    break
+                cur = op_place(rv['ops'][0]) if rv['ops'] else None
+                continue
+            cur = rv.get('pl') or (op_place(rv['op']) if rv['k'] in ('use', 'cast') else None)
+        if m == 'entry':
+            # what is done with the entry
+            der = forward_derived(b, {t['dest']['l']}, defs, through_calls=False)
+            uses = {(callee(t2) or '').split('::')[-1].split('<')[0] for _, t2 in b.calls() if t2 is not t and any(op_place(a) is not None and op_place(a)['l'] in der for a in t2['args'])}
+            kind = 'keeps' if uses and uses <= {'or_insert', 'or_insert_with', 'or_insert_with_key', 'or_default'} else 'entry:%s' % sorted(uses)
+        else:
+            kind = 'replaces'
+        writes.append((bb, t, kind, alias))
+    al = [w for w in writes if w[3]]
+    ex = [w for w in writes if not w[3]]
+    if not ctx.need('C01.R14', 'write of the `&T` alias in codegen_call_block', al) or not ctx.need('C01.R14', 'write of the exact binding in codegen_call_block', ex):
+        return
+    bad_a = [w for w in al if w[2] != 'keeps']
+    bad_e = [w for w in ex if w[2] != 'replaces']
+    ctx.ob('C01.R14', 'alias-keeps-an-existing-binding', not bad_a, b.loc(*(bad_a[0][:2] if bad_a else al[0][:2])),
+           'the `&T` alias of a `&mut T` dependency is written with %s' % sorted({w[2] for w in al}))
+    ctx.ob('C01.R14', 'exact-binding-replaces-an-alias', not bad_e, b.loc(*(bad_e[0][:2] if bad_e else ex[0][:2])),
+           'the binding keyed by the dependency\'s own type is written with %s' % sorted({w[2] for w in ex}))
+
+
 def check(ctx):
     r1_typestate(ctx)
     r2_pipeline(ctx)
@@ -554,3 +615,4 @@ def check(ctx):
     r11_unelide_early_exits(ctx)
     r12_codegen_renderers_erase_lifetimes(ctx)
     r13_canonical_forms_compared_whole(ctx)
+    r14_alias_never_replaces_a_real_binding(ctx)
